@@ -110,3 +110,37 @@ package composite
 //@   assert [C09:only-filtered-keys] forall k:Str :: (k in $d) ==> ((k in c) && (len(p.filter) == 0 || contains(p.filter, k)))
 //@   assert [C09:every-allowed-key] forall k:Str :: ((k in c) && (len(p.filter) == 0 || contains(p.filter, k))) ==> (k in $d)
 //@   assert [C09:values-from-details] forall k:Str :: (k in $d) ==> $d[k] == c[k]
+
+// The patch-and-transform composer.
+//  C05  a composed resource is reported Synced only if its Apply returned nil in this call;
+//       one whose apply was rejected as invalid, or that failed to render, is reported
+//       unsynced and unready; every template yields an entry.
+//  C01  references are persisted (Update(xr) returned nil) before any composed resource is
+//       applied.
+//  C02  composed resources are applied only with MustBeControllableBy(XR uid).
+//  C10  a resource that failed to render is never applied.
+
+//@ func (*composite.PTComposer).Compose
+//@ props C05
+//@ ghost refsPersisted bool = false
+//@ ghost applied intset = emptyintset
+//@ loop range tas
+//@   invariant [C05:rendered-are-composed-resources] len(cds) == len(tas) && forall j :: 0 <= j && j < len(tas) ==> (cds[j] == nil || typeis(cds[j], *composed.Unstructured))
+//@ loop range tas #1
+//@   invariant [C05:composed-resources-kept] forall j :: 0 <= j && j < len(tas) ==> (cds[j] == nil || typeis(cds[j], *composed.Unstructured))
+//@   invariant [C05:applied-or-dropped] forall j :: 0 <= j && j < done && cds[j] != nil ==> (j in applied)
+//@   invariant [C05:cds-sized] len(cds) == len(tas)
+//@ loop range tas #2
+//@   invariant [C05:synced-only-if-applied] forall j :: 0 <= j && j < done ==> (resources[j].Synced ==> (j in applied))
+//@   invariant [C05:unapplied-not-ready] forall j :: 0 <= j && j < done ==> (!(j in applied) ==> (!resources[j].Synced && !resources[j].Ready))
+//@   invariant [C05:applied-kept] (forall j :: 0 <= j && j < len(tas) && cds[j] != nil ==> (j in applied)) && len(resources) == len(tas) && len(cds) == len(tas)
+//@ site (client.Writer).Update(_, _, $o)
+//@   assert [C01:refs-update-is-the-xr] $o == xr
+//@   update refsPersisted = err == nil
+//@ site (resource.Applicator).Apply(_, _, $o, $opts...) as Apply-composed
+//@   where typeis($o, *composed.Unstructured)
+//@   assert [C01:refs-persisted-before-apply] refsPersisted
+//@   assert [C10:only-rendered-resources-applied] $o == cds[i] && cds[i] != nil
+//@   update applied = ite(err == nil, add(applied, i), applied)
+//@ ensures [C05:every-template-reported] err == nil ==> len(result.Composed) == len(tas)
+//@ ensures [C05:reported-synced-only-if-applied] err == nil ==> forall j :: 0 <= j && j < len(result.Composed) ==> (result.Composed[j].Synced ==> (j in applied))
